@@ -209,12 +209,8 @@ def _run(job):
     env.pop('VH_NOPLANUSE', None)
     env.update(job[7] if len(job) > 7 else {})
     env['VH_SKIP'] = skip or 'none'
-    with open(out, 'wb') as f:
-        try:
-            p = subprocess.run([exe, str(seed), str(scen), str(ops)], stdout=f, stderr=subprocess.PIPE, timeout=900, env=env)
-            return tag, p.returncode, p.stderr.decode('utf8', 'replace')[-1500:]
-        except subprocess.TimeoutExpired:
-            return tag, -9, 'timeout'
+    p = V.run_limited([exe, str(seed), str(scen), str(ops)], out, timeout=900, env=env)
+    return tag, p.returncode, p.stderr[-1500:]
 
 
 def run(tier, seed):
